@@ -72,7 +72,7 @@ func main() {
 	seed, _ := strconv.Atoi(os.Getenv("VERIF_SEED"))
 
 	if *mut != "" {
-		res := analyse(*repo, *prop, "quick", *mut)
+		res := analyse(*repo, *prop, "thorough", *mut) // thorough-only rules must be able to kill their mutants too
 		json.NewEncoder(os.Stdout).Encode(res)
 		return
 	}
@@ -494,7 +494,9 @@ func applyPatchInMemory(repo, patchFile string) (map[string][]byte, error) {
 	overlay := map[string][]byte{}
 	var cur string
 	var content []string
+	delta := 0
 	flush := func() {
+		delta = 0
 		if cur != "" {
 			overlay[filepath.Join(repo, cur)] = []byte(strings.Join(content, "\n"))
 		}
@@ -522,6 +524,8 @@ func applyPatchInMemory(repo, patchFile string) (map[string][]byte, error) {
 		case strings.HasPrefix(l, "@@") && cur != "":
 			// collect hunk
 			var oldL, newL []string
+			hunkStart := 1
+			fmt.Sscanf(l, "@@ -%d", &hunkStart)
 			i++
 			for i < len(lines) && !strings.HasPrefix(lines[i], "@@") && !strings.HasPrefix(lines[i], "diff ") && !strings.HasPrefix(lines[i], "--- ") {
 				h := lines[i]
@@ -544,8 +548,9 @@ func applyPatchInMemory(repo, patchFile string) (map[string][]byte, error) {
 				}
 				i++
 			}
-			// locate oldL in content (must be unique)
-			at, n := -1, 0
+			// locate oldL in content: the match closest to the position named by the hunk header
+			want := hunkStart - 1 + delta
+			at, best := -1, 1<<30
 			for p := 0; p+len(oldL) <= len(content); p++ {
 				match := true
 				for q := range oldL {
@@ -555,13 +560,19 @@ func applyPatchInMemory(repo, patchFile string) (map[string][]byte, error) {
 					}
 				}
 				if match {
-					at = p
-					n++
+					d := p - want
+					if d < 0 {
+						d = -d
+					}
+					if d < best {
+						at, best = p, d
+					}
 				}
 			}
-			if n != 1 {
-				return nil, fmt.Errorf("hunk does not apply uniquely to %s (%d matches)", cur, n)
+			if at < 0 || best > 200 {
+				return nil, fmt.Errorf("hunk does not apply to %s", cur)
 			}
+			delta += len(newL) - len(oldL)
 			content = append(append(append([]string{}, content[:at]...), newL...), content[at+len(oldL):]...)
 		default:
 			i++
